@@ -8,7 +8,7 @@ from __future__ import annotations
 from symx.core import at_most, Infeasible
 
 Z = {"H": 1, "He": 2, "Li": 3, "B": 5, "C": 6, "N": 7, "O": 8, "F": 9, "Na": 11, "Si": 14, "P": 15,
-     "S": 16, "Cl": 17, "Co": 27, "Br": 35, "Cs": 55, "Cn": 112, "I": 53}
+     "S": 16, "Cl": 17, "D": 1, "T": 1, "Co": 27, "Br": 35, "Cs": 55, "Cn": 112, "I": 53}
 
 
 class Mol:
@@ -34,14 +34,17 @@ class Mol:
         d.update(self.extra[a])
         return d
 
-    def listing(self, order=None, bond_order=None, flip=()):
+    def listing(self, order=None, bond_order=None, flip=(), numbering=None):
         """(atom_attrs, bond_attrs) dicts as a reader would hand them to
         graph_from_molecule: atoms listed in `order` (abstract ids), bonds in
         `bond_order` (indices into the sorted bond list), bonds in `flip`
         written with swapped endpoints."""
         order = list(range(self.n)) if order is None else list(order)
-        pos = {a: i for i, a in enumerate(order)}
-        atoms = {i: self.atom_attrs(a) for i, a in enumerate(order)}
+        # numbering[i]: the index (dict key) under which the i-th listed atom is declared; a reader hands the
+        # atoms over in file order under their file indices, which need not ascend
+        numbering = list(range(self.n)) if numbering is None else list(numbering)
+        pos = {a: numbering[i] for i, a in enumerate(order)}
+        atoms = {numbering[i]: self.atom_attrs(a) for i, a in enumerate(order)}
         blist = sorted(self.bonds)
         bond_order = range(len(blist)) if bond_order is None else bond_order
         bonds = {}
@@ -61,7 +64,7 @@ def pairs(n):
 
 
 def build_mol(c, n, alphabet=("C",), K_m=2, K_r=1, pinned=None, mass_lo=1, rad_lo=1,
-              fixed_bonds=None, label_atoms=None, rad_hi=None):
+              fixed_bonds=None, label_atoms=None, rad_hi=None, fixed_elements=None):
     """Solver-forked shape/elements/label positions; symbolic label values.
 
     pinned: dict {(a,b): bool} of edge bits fixed by the job (parallelism);
@@ -78,7 +81,9 @@ def build_mol(c, n, alphabet=("C",), K_m=2, K_r=1, pinned=None, mass_lo=1, rad_l
                 present = c.flag(f"e{a}_{b}")
             if present:
                 bonds[(a, b)] = {}
-    if len(alphabet) == 1:
+    if fixed_elements is not None:
+        elements = list(fixed_elements)
+    elif len(alphabet) == 1:
         elements = [alphabet[0]] * n
     else:
         elements = [alphabet[c.choice(f"el{a}", len(alphabet))] for a in range(n)]
